@@ -62,13 +62,15 @@ pub struct FieldSpec {
     pub dom: u8,
     pub combo: Combo,
     pub form: KeyForm,
+    /// the key of this attribute is the identity `$` (it then shadows less specific keys with the field itself)
+    pub identity: Option<Tr>,
 }
 impl FieldSpec {
     pub fn plain(ty: FTy, dom: u8) -> FieldSpec {
-        FieldSpec { ty, dom, combo: Combo::PLAIN, form: KeyForm::Method }
+        FieldSpec { ty, dom, combo: Combo::PLAIN, form: KeyForm::Method, identity: None }
     }
     pub fn cfg(combo: Combo, form: KeyForm) -> FieldSpec {
-        FieldSpec { ty: FTy::V, dom: 6, combo, form }
+        FieldSpec { ty: FTy::V, dom: 6, combo, form, identity: None }
     }
 }
 
@@ -102,7 +104,7 @@ impl TypeSpec {
     pub fn item(&self) -> ItemDef {
         let g = if self.generic() { "<T>" } else { "" };
         let fields_of = |v: &VariantSpec| -> FieldsDef {
-            let fs: Vec<FieldDef> = v.fields.iter().map(|f| FieldDef::tuple(f.ty.text()).attrs(&combo_attrs(&f.combo, self.style, f.form))).collect();
+            let fs: Vec<FieldDef> = v.fields.iter().map(|f| FieldDef::tuple(f.ty.text()).attrs(&combo_attrs_id(&f.combo, self.style, f.form, f.identity))).collect();
             match v.kind {
                 VKind::Unit => FieldsDef::Unit,
                 VKind::Tuple => FieldsDef::of(false, fs),
@@ -194,6 +196,7 @@ pub fn field_pc(t: Tr, f: &FieldSpec, style: KeyStyle, a: u8, b: u8) -> Option<O
     let r = match select(&f.combo, t) {
         Sel::Ignored => return None,
         Sel::Default => f.ty.pcmp(a, b),
+        Sel::Key(at) if f.identity == Some(at) => f.ty.pcmp(a, b),
         Sel::Key(at) | Sel::By(at) => {
             let (pa, pb) = (proj(at, style, a), proj(at, style, b));
             // the distinct `partial_ord` key / by is partial: projection 2 is incomparable (NaN-like)
@@ -261,7 +264,7 @@ fn ref_feed_code(ts: &TypeSpec) -> String {
             Sel::Ignored => None,
             Sel::Default => Some(format!("::core::hash::Hash::hash(&{place}, &mut h);")),
             Sel::Key(at) => {
-                let k = key_expr(at, ts.style, f.form).replace('$', &format!("({place})"));
+                let k = if f.identity == Some(at) { "$".to_string() } else { key_expr(at, ts.style, f.form) }.replace('$', &format!("({place})"));
                 Some(format!("::core::hash::Hash::hash(&({k}), &mut h);"))
             }
             Sel::By(at) => Some(format!("{}(&{place}, &mut h);", by_expr(at, ts.style))),
